@@ -300,6 +300,33 @@ def run(ctx):
     layoutinv.replay(ctx, ["rootfinder:broyden1", "rootfinder:newton", "equilibrium:anderson", "minimize:gd", "minimize:adam"], "rootloop")
     from vlib import bufferreuse
     bufferreuse.replay(ctx, ["rootfinder:broyden1", "equilibrium:anderson", "minimize:gd"], "rootloop")
+    # relative tolerances given together with the absolute ones (the library's own stop test, no custom terminator): they can only make
+    # the test stricter - a silent return still meets |f| < f_tol (|f - y| < f_tol for equilibrium)
+    Wr = torch.tensor([[0.3, -0.2, 0.1], [0.0, 0.4, -0.3], [0.2, 0.1, -0.1]], dtype=torch.float64)
+    cr = torch.tensor([0.5, -0.3, 0.8], dtype=torch.float64)
+    gmap = lambda y: cr + 0.5 * torch.tanh(y @ Wr.T)
+    for functional, methods in (("rootfinder", ("broyden1", "broyden2", "linearmixing", "newton")), ("equilibrium", ("broyden1", "broyden2", "linearmixing", "anderson_acc"))):
+        for method in methods:
+            for tols in (dict(f_tol=1e-10, f_rtol=1e-2), dict(f_tol=1e-8, f_rtol=0.5, x_tol=1e-6, x_rtol=0.5), dict(f_tol=1e-9, x_rtol=1e-1), dict(f_tol=1e-7, f_rtol=1e-9)):
+                ctx.case(key=("relative-tolerances", functional, method, tuple(sorted(tols.items()))))
+                why = None
+                try:
+                    with warnings.catch_warnings(record=True) as wl:
+                        warnings.simplefilter("always")
+                        with torch.no_grad():
+                            if functional == "rootfinder":
+                                yy = xitorch.optimize.rootfinder(lambda y: y - gmap(y), torch.zeros(3, dtype=torch.float64), method=method, **tols)
+                                res = float((yy - gmap(yy)).norm())
+                            else:
+                                yy = xitorch.optimize.equilibrium(gmap, torch.zeros(3, dtype=torch.float64), method=method, **tols)
+                                res = float((gmap(yy) - yy).norm())
+                    warned = any("onverge" in str(w_.message) or "ConvergenceWarning" in type(w_.message).__name__ for w_ in wl)
+                    if not warned and not res < tols["f_tol"]:
+                        why = "returned silently with a residual of %.3e, the caller asked for f_tol = %g" % (res, tols["f_tol"])
+                except Exception as e:
+                    why = "raised %s: %s" % (type(e).__name__, str(e)[:120])
+                if why:
+                    ctx.violation("rootloop/%s/relative-tolerances" % functional, "%s(method=%s, %s): %s" % (functional, method, tols, why), {"functional": functional, "method": method, "tols": tols})
     ctx.check_coverage(r, ["NlStart", "NlIter", "NlExhaust", "NlReturn", "AaStart", "AaIter", "AaExhaust", "AaReturn", "OptStart", "OptIter", "OptExhaust", "OptReturn"])
     for sw, inv in (("ReturnTested", None), ("ZeroResidualStops", "NoRaiseAtRoot"), ("EarlyFixedPoint", "SilentMeetsTol"),
                     ("WarnIffNotConverged", "WarnedIffNotConverged")):
